@@ -520,6 +520,45 @@ func psPure(r *prng.R, s *out.Sink) {
 			}
 		}
 		s.Distinct["pure|"+desc] = struct{}{}
+		// proofs made without a signature under pk: the prover's own routine run on points that are no signature
+		// (the identity of G1 in either or both places, the bare generator, h with an unrelated second component).
+		// "verifies only if it was produced by at least t genuine shares of the key": each must be refused, by
+		// SigPoK.Verify and by a Verifier initialised with this key.
+		zero := psCurve.GenG1.Copy()
+		zero.Sub(zero)
+		ver := &ps.Verifier{}
+		rawTPK, _ := asn1.Marshal(ps.ThresholdPK{TPK: pk.Bytes()})
+		verOK := ver.Init(psCurve, l, rawTPK) == nil
+		for _, f := range []struct {
+			what      string
+			h, hPrime *math.G1
+		}{
+			{"h = 0, h' = 0 (no signer involved)", zero.Copy(), zero.Copy()},
+			{"h = 0, h' genuine", zero.Copy(), hPrime.Copy()},
+			{"h genuine, h' = 0", h.Copy(), zero.Copy()},
+			{"h = g, h' = g (no signer involved)", psCurve.GenG1.Copy(), psCurve.GenG1.Copy()},
+			{"h genuine, h' = h", h.Copy(), h.Copy()},
+		} {
+			res := safely(func() string {
+				forged := ps.PoKofSig(&pp, pk, f.h, f.hPrime, msg)
+				fb := forged.Bytes()
+				for k := 1; k <= 2; k++ {
+					if forged.Verify(&pp, pk) == nil {
+						return fmt.Sprintf("SigPoK.Verify (call %d) accepts", k)
+					}
+					if verOK && ver.Verify(fb) == nil {
+						return fmt.Sprintf("Verifier.Verify (call %d) accepts", k)
+					}
+				}
+				return "rejected"
+			})
+			s.N++
+			s.Count("forged/" + res)
+			if res != "rejected" && res != "panic" {
+				s.Violate("C09", res+" a proof of knowledge made without any genuine signature share: PoKofSig run on "+f.what, desc+"; "+f.what)
+			}
+			s.Distinct["forged|"+desc+"|"+f.what] = struct{}{}
+		}
 		psBinding(r, s, l, &pp, pk, σ, &secret, pok, desc)
 	}
 }
